@@ -5,9 +5,9 @@ CONSTANTS
  Poll = 2
  Ticks = TRUE
  Defect = "none"
- MaxTime = 5
+ MaxTime = 4
  MaxAtt = 3
- ShutTOs <- TOZero
+ ShutTOs <- TOBoth
  PCancel = {}
  Gates = {FALSE}
  DL1 <- DL24
@@ -15,7 +15,7 @@ CONSTANTS
  W2 <- WT
  LB2 <- LA
  W3 <- WT
- Res <- R4
+ Res <- R3
 INVARIANTS Safety
 PROPERTIES Independent
 VIEW View
